@@ -33,9 +33,15 @@ Compared per case, each disagreement attributed to the earliest phase that expla
            the model accepts and its run ends normally, failure otherwise; stdout contains what
            Lang.display says `shout` wrote; a rejected text shows the model's first diagnostic
 Inputs: langgen programs (size-capped: the extracted lexer is quadratic on byte lists),
-token-level mutants (rejections in every phase), re-layouts and redundant-parenthesis variants
-produced by `nsverif layout` from the real token spans, a fixed corpus of phase / literal /
-keyword boundary programs, the ```naijascript snippets of /repo/docs and /repo/examples.
+token-level mutants and single-rule injections (rejections in every phase), re-layouts and
+redundant-parenthesis variants produced by `nsverif layout` from the real token spans, a fixed
+corpus (which phase stops the pipeline, lazy lexing, number-literal shapes, keyword look-ahead,
+templates, scoping / closures, runtime endings), one program per static rule / typing-table cell
+(STATIC_LINES) and per built-in edge call (BUILTIN_LINES), the dynamic typing matrix (every operator /
+condition / index / method on every kind of value through parameters), the
+```naijascript snippets of
+/repo/docs and /repo/examples.  Model runs are sharded and watched (a case on which the byte-list
+model needs more than the watchdog allows is counted inconclusive, never as agreement).
 
 ORACLE: none of its own (this check is a tie between the assembled model and the code); the only
 `failures` it reports are re-layouts on which the IMPLEMENTATION's observable behaviour differs from
@@ -172,14 +178,103 @@ CORPUS = [
 ]
 
 
+BUILTIN_LINES = [
+    'shout(s.slice(minus 2.5, 6))',
+    'shout(s.slice(0, minus 0.5))',
+    'shout(s.slice(minus 4.2, minus 1.9))',
+    'shout(s.slice(1.7, 4.2))',
+    'shout(s.slice(4, 2))',
+    'shout(s.slice(minus 100, 100))',
+    'shout("héllo wörld".slice(1, minus 1))',
+    'shout(s.find(""))',
+    'shout(s.find("zz"))',
+    'shout("aaa".replace("a", ""))',
+    'shout("aaa".replace("", "x"))',
+    'shout("a,b,,c".split(","))',
+    'shout("abc".split(""))',
+    'shout("  \\t x y \\t ".trim())',
+    'shout("ǅ straße İ".to_uppercase())',
+    'shout("ǅ STRASSE İ".to_lowercase())',
+    'shout(" 1.5".to_number())',
+    'shout("1e3".to_number())',
+    'shout("inf".to_number())',
+    'shout("-0".to_number())',
+    'shout("0x10".to_number())',
+    'shout((2.5).round())',
+    'shout((minus 2.5).round())',
+    'shout((minus 2.5).floor())',
+    'shout((minus 2.5).ceil())',
+    'shout((minus 0.4).round())',
+    'shout((minus 4).sqrt())',
+    'shout((minus 7).abs())',
+    'shout(7 mod 3)',
+    'shout(minus 7 mod 3)',
+    'shout(7 mod minus 3)',
+    'shout(7.5 mod 2)',
+    'shout(1 divide 3)',
+    'shout(0.1 add 0.2 na 0.3)',
+    'shout("a" small pass "b")',
+    'shout("é" pass "z")',
+    'shout([1,[2]] na [1,[2]])',
+    'shout(null na null)',
+    'shout("1" na 1)',
+    'shout(to_string(1.0))',
+    'shout(to_string(1000000000000000000000))',
+    'shout(to_string(0.000001))',
+    'shout(typeof(null))',
+    'shout(typeof([]))',
+    'shout([3,1,2].reverse())',
+    'shout([].pop())',
+    'shout([1,2,3].join(""))',
+    'shout("x" add 1.50)',
+    'shout(1 add "x")',
+    'shout("n=" add null)',
+    'shout("b=" add true)',
+    'shout("a=" add [1,"s"])',
+]
+
+
+DYN_VALUES = [("num", "2.5"), ("str", '"ab"'), ("bool", "true"), ("null", "null"), ("arr", "[1, 2]")]
+DYN_BINOPS = ["add", "minus", "times", "divide", "mod", "and", "or", "na", "pass", "small pass"]
+DYN_METHODS = ["len()", "slice(0, 1)", "to_uppercase()", "to_lowercase()", "find(\"a\")", "replace(\"a\", \"b\")", "trim()",
+               "to_number()", "split(\"a\")", "abs()", "sqrt()", "floor()", "ceil()", "round()", "push(1)", "pop()", "reverse()",
+               "join(\"-\")", "nope()"]
+
+
+def dynamic_matrix():
+    """every operator / condition / index / method applied to every kind of value through PARAMETERS
+    (dynamically typed: the static rules accept, the runtime decides): the type-routing arms of runtime.rs"""
+    out = []
+    for op in DYN_BINOPS:
+        for ka, va in DYN_VALUES:
+            for kb, vb in DYN_VALUES:
+                out.append(("dyn-%s-%s-%s" % (op.replace(" ", "_"), ka, kb),
+                            "do f(a, b) start return a %s b end\nshout(1)\nshout(f(%s, %s))\nshout(2)\n" % (op, va, vb)))
+    for ka, va in DYN_VALUES:
+        out.append(("dyn-not-%s" % ka, "do f(a) start return not a end\nshout(f(%s))\n" % va))
+        out.append(("dyn-neg-%s" % ka, "do f(a) start return minus a end\nshout(f(%s))\n" % va))
+        out.append(("dyn-if-%s" % ka, "do f(a) start if to say (a) start return 1 end return 0 end\nshout(f(%s))\n" % va))
+        out.append(("dyn-loop-%s" % ka, "do f(a) start jasi (a) start return 1 end return 0 end\nshout(f(%s))\n" % va))
+        out.append(("dyn-interp-%s" % ka, 'do f(a) start return "v={a}!" end\nshout(f(%s))\n' % va))
+        for kb, vb in DYN_VALUES:
+            out.append(("dyn-index-%s-%s" % (ka, kb), "do f(a, i) start return a[i] end\nshout(f(%s, %s))\n" % (va, vb)))
+            out.append(("dyn-setindex-%s-%s" % (ka, kb), "do f(a, i) start a[i] get 7 return a end\nshout(f(%s, %s))\n" % (va, vb)))
+        for m in DYN_METHODS:
+            out.append(("dyn-%s-%s" % (re.sub(r"\W", "", m), ka), "do f(a) start return a.%s end\nshout(f(%s))\n" % (m, va)))
+    return out
+
+
 def hx(text):
     b = text.encode("utf-8")
     return b.hex() if b else "-"
 
 
 def full_corpus():
-    """the fixed corpus plus every static-rule line on its own (deterministic coverage of each rule)"""
-    return CORPUS + [("static-line-%d" % i, ln + "\n") for i, ln in enumerate(STATIC_LINES)]
+    """the fixed corpus plus every static-rule line and every built-in edge call on its own"""
+    out = CORPUS + [("static-line-%d" % i, ln + "\n") for i, ln in enumerate(STATIC_LINES)]
+    # one built-in call with edge arguments per program (a failing call must not hide the following ones)
+    out += [("builtin-line-%d" % i, ('make s get "abcdef"\n' if "s." in ln else "") + ln + "\n") for i, ln in enumerate(BUILTIN_LINES)]
+    return out
 
 
 def unhx(h):
@@ -702,6 +797,9 @@ def correspond(env, searching=False, model=True):
     cases = []
     origin = {}
     for cid, src in full_corpus():
+        cases.append(("c-" + cid, src))
+    dyn = dynamic_matrix()
+    for cid, src in dyn:
         cases.append(("c-" + cid, src))
     io_ids = set()
     for cid, src in docs_and_examples():
